@@ -41,7 +41,7 @@ inductive TameP : List Entry → List PTok → List PTok → Prop
       PasteArgsOK env e.m.body args →
       args'.length = args.length →
       (∀ (i : Nat) (a a' : List PTok), args[i]? = some a → args'[i]? = some a' → TameP env a a') →
-      (∀ a' ∈ args', OnlyDisabled env a') →
+      (∀ (i : Nat) (a a' : List PTok), args[i]? = some a → args'[i]? = some a' → ArgOK env a a') →
       substitute e.m.body args' = .ok body' →
       TameP (disable env mi) body' R →
       NoFire env mi R rest' →
